@@ -512,7 +512,7 @@ impl Check for C11 {
                 // the k-th KB of the family is a function of (seed, k) only
                 let mut rng = Rng::derive(cli.seed, 1_000 + k as u64);
                 let (plan, parsed) = loop {
-                    let feat = Feat { int_eq: false, str_preds: false, salience: false, nested: false, type_mixed: false };
+                    let feat = Feat::default();
                     let plan = gen_plan(&mut rng, feat);
                     if plan.kb.rules.len() > 6 {
                         continue;
@@ -567,7 +567,7 @@ impl Check for C11 {
         ));
 
         // ---- random histories ----
-        let kbs_per_shard = cli.n(400, 10_000);
+        let kbs_per_shard = cli.n(400, 8_000);
         shards(cli, nthreads, st, |_shard, rng, st| {
             for _ in 0..kbs_per_shard {
                 if cli.expired() {
